@@ -137,26 +137,65 @@ fn btx_json(t: &BrokerTx) -> JsonValue {
         None => JsonValue::Null,
     };
     o["memo"] = t.memo.as_str().into();
+    // would acb accept the row?  (Into<CsvTx>, a day rate for USD rows
+    // without one as load_tx_rates would supply, Tx::try_from)
+    let mut c: CsvTx = t.clone().into();
+    o["accepted"] = accepted(&mut c);
     o
+}
+
+fn accepted(t: &mut CsvTx) -> JsonValue {
+    if t.tx_curr_to_local_exchange_rate.is_none() {
+        if let Some(c) = &t.tx_currency {
+            if !c.is_default() {
+                if *c == Currency::usd() {
+                    t.tx_curr_to_local_exchange_rate = Some(Decimal::new(13, 1));
+                } else {
+                    return format!(
+                        "Currency {} does not support automatically loaded day rates",
+                        c
+                    )
+                    .into();
+                }
+            }
+        }
+    }
+    match Tx::try_from(t.clone()) {
+        Ok(_) => JsonValue::Boolean(true),
+        Err(e) => e.into(),
+    }
 }
 
 pub fn handle_sheet(case: &JsonValue) -> JsonValue {
     let rg = range_of(&case["cells"]);
     let mut o = JsonValue::new_object();
     o["sheet"] = dump_range(&rg);
-    let (mut txs, errs, fatal) = match sheet_to_txs(&rg, None) {
-        Ok(t) => (t, vec![], false),
-        Err(e) => match e.txs {
-            Some(t) => (t, e.errors, false),
-            None => (vec![], e.errors, true),
-        },
-    };
-    if case["sort"].as_bool().unwrap_or(false) {
-        txs.sort();
+    let sort = case["sort"].as_bool().unwrap_or(false);
+    // the conversion may panic: keep the decoded sheet in the answer
+    let r = std::panic::catch_unwind(std::panic::AssertUnwindSafe(|| {
+        let (mut txs, errs, fatal) = match sheet_to_txs(&rg, None) {
+            Ok(t) => (t, vec![], false),
+            Err(e) => match e.txs {
+                Some(t) => (t, e.errors, false),
+                None => (vec![], e.errors, true),
+            },
+        };
+        if sort {
+            txs.sort();
+        }
+        (txs, errs, fatal)
+    }));
+    match r {
+        Ok((txs, errs, fatal)) => {
+            o["status"] = if fatal { "fatal".into() } else { "ok".into() };
+            o["txs"] = JsonValue::Array(txs.iter().map(btx_json).collect());
+            o["errors"] =
+                JsonValue::Array(errs.iter().map(|e| e.to_string().into()).collect());
+        }
+        Err(_) => {
+            o["status"] = "panic".into();
+        }
     }
-    o["status"] = if fatal { "fatal".into() } else { "ok".into() };
-    o["txs"] = JsonValue::Array(txs.iter().map(btx_json).collect());
-    o["errors"] = JsonValue::Array(errs.iter().map(|e| e.to_string().into()).collect());
     o
 }
 
@@ -220,29 +259,7 @@ fn acb_reads(csv_text: &str) -> JsonValue {
             let mut rows = JsonValue::new_array();
             for mut t in csvtxs {
                 let mut r = csvtx_json(&t);
-                let mut rate_err: Option<String> = None;
-                if t.tx_curr_to_local_exchange_rate.is_none() {
-                    if let Some(c) = &t.tx_currency {
-                        if !c.is_default() {
-                            if *c == Currency::usd() {
-                                t.tx_curr_to_local_exchange_rate =
-                                    Some(Decimal::new(13, 1));
-                            } else {
-                                rate_err = Some(format!(
-                                    "Currency {} does not support automatically loaded day rates",
-                                    c
-                                ));
-                            }
-                        }
-                    }
-                }
-                r["accepted"] = match rate_err {
-                    Some(e) => e.into(),
-                    None => match Tx::try_from(t) {
-                        Ok(_) => JsonValue::Boolean(true),
-                        Err(e) => e.into(),
-                    },
-                };
+                r["accepted"] = accepted(&mut t);
                 rows.push(r).unwrap();
             }
             o["rows"] = rows;
@@ -313,13 +330,22 @@ pub fn handle_file(case: &JsonValue) -> JsonValue {
     };
     let (out_w, out_b) = WriteHandle::string_buff_write_handle();
     let (err_w, err_b) = WriteHandle::string_buff_write_handle();
-    let res = run_with_args(args, out_w, err_w);
-    let out = out_b.borrow_mut().export_string();
-    let err = err_b.borrow_mut().export_string();
-    o["ok"] = res.is_ok().into();
-    o["acb"] = acb_reads(&out);
-    o["out"] = out.into();
-    o["err"] = err.into();
+    let res = std::panic::catch_unwind(std::panic::AssertUnwindSafe(|| {
+        run_with_args(args, out_w, err_w)
+    }));
+    match res {
+        Ok(res) => {
+            let out = out_b.borrow_mut().export_string();
+            let err = err_b.borrow_mut().export_string();
+            o["ok"] = res.is_ok().into();
+            o["acb"] = acb_reads(&out);
+            o["out"] = out.into();
+            o["err"] = err.into();
+        }
+        Err(_) => {
+            o["status"] = "panic".into();
+        }
+    }
     if !case["keep"].as_bool().unwrap_or(false) {
         let _ = std::fs::remove_file(&path);
     }
